@@ -61,7 +61,8 @@ BOUNDS = ("(a) int/real types: 4 bound shapes x bound values in windows of width
           "examples' plans (valid) and on broken plans (invalid)")
 OUTSIDE = ("values outside the windows (bound values are realised: the protobuf C extension and str(int) are realisation boundaries, so 'rationals of any size' is "
            "checked at the solver-drawn sizes only); numerators/denominators beyond int64 in constants and delays are refused by the writer (protobuf int64 fields) "
-           "and therefore outside the property's antecedent; PlanGenerationResult; gRPC transport")
+           "and therefore outside the property's antecedent; PlanGenerationResult; gRPC transport; scheduling problems in a non-global environment "
+           "(the scheduling model classes themselves ignore the problem's environment)")
 ASSUMPTIONS = ["objects are compared with the library's own __eq__ (and hash) in one environment; the reader is given the environment of the original",
                "ValidationResult: the fields for which the protobuf schema has no slot (trace, calculated_interpreted_functions -- as in the repository's own "
                "test -- ) are dropped before comparing; every other field is compared",
@@ -379,6 +380,8 @@ def h_nonglobal_env(ctx, names):
     name = ctx.pick("example", names)
     ex = _examples(env)[name]
     w, r = _rw()
+    if type(ex.problem).__name__ == "SchedulingProblem":
+        ctx.assume(False)  # the scheduling MODEL itself builds activities/parameters in the global environment: not the reader's doing
     try:
         msg = w.convert(ex.problem)
     except Exception:  # noqa: BLE001  (examples the writer refuses: python callables, continuous effects)
@@ -528,7 +531,7 @@ def shards(tier, seed):
     n = 6 if q else 3
     for i in range(n):
         out.append(dict(name=f"c-examples-{i}", fn="h_example", kwargs=dict(names=names[i::n]), budget=200 if q else 900, engine="direct"))
-    out.append(dict(name="c-nonglobal-environment", fn="h_nonglobal_env", kwargs=dict(names=["basic", "matchcellar", "htn-go", "sched:basic"] if q else names), budget=60 if q else 600, engine="direct"))
+    out.append(dict(name="c-nonglobal-environment", fn="h_nonglobal_env", kwargs=dict(names=["basic", "matchcellar", "htn-go", "basic_oversubscription"] if q else names), budget=60 if q else 600, engine="direct"))
     out.append(dict(name="c-compiler-result", fn="h_results",
                     kwargs=dict(names=[x for x in ("basic", "robot", "hierarchical_blocks_world", "robot_fluent_of_user_type", "matchcellar", "robot_loader_adv",
                                                    "counter", "travel") if x in names] if q else names, what="compiler"),
